@@ -81,6 +81,8 @@ def lik_item(seed, i):
     d = dict(rng=[seed, 152, i], nw=nw, W=W, K=int(rng.integers(1, 5)), T=int(rng.integers(1, 30)),
              scale=[1e-7, 1e-3, 1.0, 1e3, 1e7][i % 5], spread=float(rng.choice([0.1, 1.0, 50.0])), layout=["C", "F"][(i // 8) % 2],
              theta="dense", dtype=[None, None, None, "int64", "float32"][i % 5] if nw <= 12 else None)
+    # a missing / overflowed sample in the data being scored: the table has non-finite entries, which every mode must place alike
+    d["poison"] = [None, "nan", None, "inf", None, None, "neginf", None][(i // 3) % 8] if d["dtype"] is None else None
     return d
 
 
@@ -132,6 +134,10 @@ def run_kernels(spec, res, mode):
     for i in range(spec["nlik"]):
         d = lik_item(seed, i)
         st, X = c05.make_model(d)
+        if d.get("poison"):
+            X = np.array(X, dtype=np.float64, order="K")
+            X[X.shape[0] // 2, (i * 7) % X.shape[1]] = {"nan": np.nan, "inf": np.inf, "neginf": -np.inf}[d["poison"]]
+            res.count("likelihood_items_with_a_non_finite_sample")
         try:
             tab = np.asarray(lk.all_points_all_clusters_log_likelihood(st, X), dtype=np.float64)
             out["lik%d" % i] = dict(table=tab)
